@@ -1,5 +1,7 @@
 import SignaloModel.Gen.Tables
-/-! feasibility: every table obligation by `decide +kernel` over core `Rat` -/
+import SignaloModel.Model.Fir
+/-! Table obligations (C05 Savitzky-Golay, C07 Daubechies), by `decide +kernel` over core `Rat`; the tables are
+regenerated from the Rust source on every run, so these theorems are re-checked against what the code says now. -/
 namespace SignaloModel.Tables
 open SignaloModel.Gen
 
@@ -16,24 +18,26 @@ def altNeg : Nat → List Rat → List Rat
 
 def highOf (low : List Rat) : List Rat := altNeg 0 low.reverse
 
-def addL : List Rat → List Rat → List Rat
-  | [], ys => ys
-  | xs, [] => xs
-  | x :: xs, y :: ys => (x + y) :: addL xs ys
+open SignaloModel.Fir (addL polyMul)
 
-def polyMul : List Rat → List Rat → List Rat
-  | [], _ => []
-  | a :: as, bs => addL (bs.map (a * ·)) (0 :: polyMul as bs)
+/-- the analysis kernels as `daubechies.rs` builds them: normalised low-pass; high-pass = reversed low-pass with
+alternating signs -/
+def lowOf (raw : List Rat) : List Rat := normalize raw
+
+/-- kernel of the analysis→synthesis cascade (synthesis kernels = reversed analysis kernels):
+`low'∗low + high'∗high` -/
+def cascadeKernel (raw : List Rat) : List Rat :=
+  addL (polyMul (lowOf raw).reverse (lowOf raw)) (polyMul (highOf (lowOf raw)).reverse (highOf (lowOf raw)))
+
+/-- `-δ[k = d]` of length `len` -/
+def negDelta (len d : Nat) : List Rat := (List.range len).map (fun k => if k = d then (-1 : Rat) else 0)
+
+/-- cascade kernel minus the unit impulse delayed by `N - 1` -/
+def residualKernel (raw : List Rat) : List Rat :=
+  addL (cascadeKernel raw) (negDelta (2 * raw.length - 1) (raw.length - 1))
 
 /-- Σ_k |e[k] − δ[k = n−1]| for the analysis→synthesis cascade built as daubechies.rs builds it -/
-def residual (raw : List Rat) : Rat :=
-  let low := normalize raw
-  let high := highOf low
-  let n := raw.length
-  -- synthesis kernels are the reversed analysis kernels
-  let comb := addL (polyMul low low.reverse) (polyMul high high.reverse)
-  let delta := (List.range (2 * n - 1)).map (fun k => if k == n - 1 then (1 : Rat) else 0)
-  lsum ((List.zipWith (· - ·) comb delta).map absR)
+def residual (raw : List Rat) : Rat := lsum ((residualKernel raw).map absR)
 
 def highGain (raw : List Rat) : Rat := absR (lsum (highOf (normalize raw)))
 def lowGain (raw : List Rat) : Rat := lsum (normalize raw)
